@@ -505,3 +505,304 @@ CLONE_VALUES = contract(
         ('source-untouched', 'schema or unchanged(self._componentValues)')],
     note='dict.items() and member.clone() are assumed models; the clone\'s setComponentByPosition is the callee contract')
 CONTRACTS = CONTRACTS + [CLONE_VALUES]
+
+
+# ==== SEQUENCE / SET objects (SequenceAndSetBase): a python list with one slot per declared component ===========================
+def sym_list(length, ids, name='componentValues'):
+    """python list of symbolic length: ids[k] for 0 <= k < length are the identity tokens of the items"""
+    def eff(self, k):
+        n = self.fields['length']
+        return If(k < 0, k + n, k)
+
+    def in_range(self, k):
+        n = self.fields['length']
+        return And(k >= -n, k < n)
+
+    def getitem(ex, self, k):
+        k = toint(k)
+        if not ex.choose(in_range(self, k), 'index-in-range'):
+            raise _Raise(ExcV('IndexError'))
+        return element(Select(self.fields['ids'], eff(self, k)))
+
+    def setitem(ex, self, k, v):
+        k = toint(k)
+        if not ex.choose(in_range(self, k), 'index-in-range'):
+            raise _Raise(ExcV('IndexError'))
+        self.fields['ids'] = Store(self.fields['ids'], eff(self, k), idof(v))
+
+    def append(ex, self, v):
+        self.fields['ids'] = Store(self.fields['ids'], self.fields['length'], idof(v))
+        self.fields['length'] = self.fields['length'] + 1
+    o = Obj('list', {'length': length, 'ids': ids},
+            {'__getitem__': getitem, '__setitem__': setitem, 'append': append, '__len__': lambda ex, self: self.fields['length']},
+            name=name)
+    o.methods['__bool__'] = lambda ex, self: self.fields['length'] > 0
+    return o
+
+
+N_DECL = z3.Int('componentTypeLen')
+LID0 = z3.Const('slots0', IntMap)
+LLEN0 = z3.Int('slotCount0')
+TYPE_SIMPLE = z3.Function('componentTypeIsSimple', I, BoolSort())
+DYN = z3.Const('dynamicNames0', IntSet)
+
+
+def _named_types_model(ex, env):
+    def type_by_pos(ex2, self, idx):
+        """NamedTypes.getTypeByPosition: the declared type, PyAsn1Error for a position outside the declaration (python
+        list indexing: negative positions count from the end)"""
+        idx = toint(idx)
+        if not ex2.choose(And(idx >= -N_DECL, idx < N_DECL), 'declared-position'):
+            raise _Raise(ExcV('PyAsn1Error'))
+        simple = ex2.choose(TYPE_SIMPLE(idx), 'simple-component')
+
+        def clone(ex3, me, *a, **kw):
+            return Obj('Asn1Item', {'isValue': bool(a or 'value' in kw), 'ofDeclaredType': idx},
+                       {'reset': lambda ex4, me2: me2},
+                       bases=('Asn1Item', 'SimpleAsn1Type') if simple else ('Asn1Item', 'ConstructedAsn1Type'),
+                       name='componentType.clone()')
+
+        def checker(ex3, me, value, *a, **kw):
+            return ex3.fresh('subtype.ok', BoolSort())
+        return Obj('Asn1Item', {'declaredAt': idx}, {'clone': clone, 'isSameTypeWith': checker, 'isSuperTypeOf': checker},
+                   bases=('Asn1Item', 'SimpleAsn1Type') if simple else ('Asn1Item', 'ConstructedAsn1Type'), name='declaredType')
+
+    def getitem(ex2, self, idx):
+        idx = toint(idx)
+        if not ex2.choose(And(idx >= -N_DECL, idx < N_DECL), 'declared-position'):
+            raise _Raise(ExcV('IndexError'))
+        return Obj('NamedType', {'isDefaulted': ex2.fresh('isDefaulted', BoolSort()), 'isOptional': ex2.fresh('isOptional', BoolSort()),
+                                 'openType': None if ex2.choose(ex2.fresh('noOpenType', BoolSort()), 'open-type') else
+                                 Obj('OpenType', {}, name='openType')}, name='namedType')
+    return Obj('NamedTypes', {'__class__': {'__name__': 'NamedTypes'}}, {'getTypeByPosition': type_by_pos, '__getitem__': getitem},
+               name='componentType')
+
+
+def _record_self(ex, env):
+    if ex.choose(IS_SCHEMA, 'schema-object'):
+        cv = NOVALUE
+    else:
+        cv = sym_list(LLEN0, LID0)
+        ex.assume(LLEN0 >= 0)
+
+    def contains(ex2, self, k):
+        return Select(self.fields['set'], toint(k))
+
+    def add_field(ex2, self, k):
+        self.fields['set'] = Store(self.fields['set'], toint(k), True)
+    dyn = Obj('DynamicNames', {'set': DYN}, {'__contains__': contains, 'addField': add_field}, name='_dynamicNames')
+    return Obj('Sequence', {'_componentValues': cv, 'componentType': env['componentType'], '_componentTypeLen': N_DECL,
+                            '_dynamicNames': dyn, 'strictConstraints': z3.Bool('strictConstraints')}, name='self')
+
+
+def _slots_are(ex, lst, n, at, v):
+    """the list has n slots; slot `at` holds v"""
+    return And(lst.fields['length'] == toint(n), Select(lst.fields['ids'], toint(at)) == idof(v))
+
+
+def _others_kept_list(ex, lst, at):
+    return ForAll([_k], Implies(And(_k >= 0, _k < LLEN0, _k != toint(at)), Select(lst.fields['ids'], _k) == Select(LID0, _k)))
+
+
+def _others_empty(ex, lst, at):
+    return ForAll([_k], Implies(And(_k >= 0, _k < lst.fields['length'], _k != toint(at)), Select(lst.fields['ids'], _k) == NOV))
+
+
+def _on_list(f):
+    def g(ex, d, *a):
+        if not (isinstance(d, Obj) and 'length' in d.fields):
+            return False
+        return f(ex, d, *a)
+    return g
+
+
+GR = dict(G, N=N_DECL, LLEN0=LLEN0, value=NEW_VALUE, SequenceAndSetBase=ClassV('SequenceAndSetBase'),
+          base={'Asn1Item': ClassV('Asn1Item'), 'SimpleAsn1Type': ClassV('SimpleAsn1Type'),
+                'ConstructedAsn1Type': ClassV('ConstructedAsn1Type'), '__name__': 'base'},
+          slots_are=FnV(_on_list(_slots_are), 'slots_are'), others_kept_list=FnV(_on_list(_others_kept_list), 'others_kept_list'),
+          others_empty=FnV(_on_list(_others_empty), 'others_empty'),
+          list_unchanged=FnV(_on_list(lambda ex, lst: And(lst.fields['length'] == LLEN0, lst.fields['ids'] == LID0)), 'list_unchanged'),
+          eff=FnV(lambda ex, k, n: If(toint(k) < 0, toint(k) + toint(n), toint(k)), 'eff'))
+
+
+def record_contract(**kw):
+    c = Contract(file=U, **kw)
+    c.empty_list = lambda ex: sym_list(IntVal(0), z3.K(I, NOV), name='[]')
+    c.list_repeat = lambda ex, item, n: sym_list(toint(n), z3.K(I, idof(item)), name='[x]*n')
+    return c
+
+
+RECORD_SETPOS = record_contract(
+    id='type.univ::SequenceAndSetBase.setComponentByPosition[declared,value-object]',
+    qual='SequenceAndSetBase.setComponentByPosition', properties=['C19', 'C04', 'C14'],
+    params=dict(componentType=PDerived(_named_types_model), self=PDerived(_record_self), idx=PInt(), value=PConst(NEW_VALUE),
+                verifyConstraints=PBool(), matchTags=PBool(), matchConstraints=PBool()),
+    globals=GR,
+    # a record with declared components: the representation invariant is "schema, or cleared (no slots), or one slot per
+    # declared component"
+    requires=['N > 0', 'schema or LLEN0 == N or LLEN0 == 0'],
+    ensures=[('one-slot-per-declared-component', 'slots_are(self._componentValues, N, eff(idx, N), value)'),
+             ('other-components-untouched', '(not schema) ==> others_kept_list(self._componentValues, eff(idx, N))'),
+             ('schema-gets-empty-slots', '(schema or LLEN0 == 0) ==> others_empty(self._componentValues, eff(idx, N))'),
+             ('only-declared-positions', '-N <= idx and idx < N'),
+             ('returns-self', 'result is self')],
+    raise_ensures={'PyAsn1Error': ['schema ==> self._componentValues is noValue', '(not schema) ==> list_unchanged(self._componentValues)'],
+                   'IndexError': ['schema ==> self._componentValues is noValue', '(not schema) ==> list_unchanged(self._componentValues)',
+                                  'idx >= N or idx < -N']},
+    may_raise={'PyAsn1Error': True, 'IndexError': True},
+    note='getTypeByPosition / NamedTypes[idx] / isSuperTypeOf are assumed models; python list semantics (negative '
+         'positions count from the end) is the model of the slot list')
+CONTRACTS = CONTRACTS + [RECORD_SETPOS]
+
+
+# ... no value given: a placeholder of the declared type (constructed ones are private copies)
+JOURNAL = Obj('journal', {'last': None}, name='journal')
+
+
+def _named_types_journal(ex, env):
+    nt = _named_types_model(ex, env)
+    inner = nt.methods['getTypeByPosition']
+
+    def type_by_pos(ex2, self, idx):
+        t = inner(ex2, self, idx)
+        env['journal'].fields['last'] = t
+        real_clone = t.methods['clone']
+
+        def clone(ex3, me, *a, **kw):
+            c = real_clone(ex3, me, *a, **kw)
+            c.fields['cloneValueFlag'] = kw.get('cloneValueFlag')
+            c.fields['wasReset'] = False
+
+            def reset(ex4, me2):
+                me2.fields['wasReset'] = True
+                return me2
+            c.methods['reset'] = reset
+            c.methods['__isinstance__'] = lambda ex4, me2, nm: ex4.choose(z3.Bool('componentIsRecord'), 'record-member') \
+                if nm == 'SequenceAndSetBase' else False
+            env['journal'].fields['last'] = c
+            return c
+        t.methods['clone'] = clone
+        return t
+    nt.methods['getTypeByPosition'] = type_by_pos
+    return nt
+
+
+RECORD_SETPOS_PLACEHOLDER = record_contract(
+    id='type.univ::SequenceAndSetBase.setComponentByPosition[declared,placeholder]',
+    qual='SequenceAndSetBase.setComponentByPosition', properties=['C19', 'C12'],
+    params=dict(journal=PDerived(lambda ex, env: Obj('journal', {'last': None}, name='journal')),
+                componentType=PDerived(_named_types_journal), self=PDerived(_record_self), idx=PInt(), value=PConst(NOVALUE),
+                verifyConstraints=PBool(), matchTags=PBool(), matchConstraints=PBool()),
+    globals=dict(GR, simple=FnV(lambda ex, k: TYPE_SIMPLE(toint(k)), 'simple')),
+    requires=['N > 0', 'schema or LLEN0 == N or LLEN0 == 0'],
+    ensures=[('placeholder-stored', 'slots_are(self._componentValues, N, eff(idx, N), journal.last)'),
+             ('simple-placeholder-is-the-declared-type', 'simple(idx) ==> journal.last.declaredAt == idx'),
+             # a constructed placeholder is a private copy, never the schema's own object (C12)
+             ('constructed-placeholder-is-a-copy', '(not simple(idx)) ==> journal.last.ofDeclaredType == idx'),
+             ('other-components-untouched', '(not schema) ==> others_kept_list(self._componentValues, eff(idx, N))')],
+    raise_ensures={'PyAsn1Error': ['schema ==> self._componentValues is noValue', '(not schema) ==> list_unchanged(self._componentValues)'],
+                   'IndexError': ['schema ==> self._componentValues is noValue', '(not schema) ==> list_unchanged(self._componentValues)']},
+    may_raise={'PyAsn1Error': True, 'IndexError': True},
+    note='a simple-typed placeholder is the (immutable) declared type object itself')
+CONTRACTS = CONTRACTS + [RECORD_SETPOS_PLACEHOLDER]
+
+
+# ... a record without declared components grows like a list: positions 0..L-1 are named, position L appends
+def _dyn_inv(ex, self_):
+    lst = self_.fields['_componentValues']
+    if not (isinstance(lst, Obj) and 'length' in lst.fields):
+        return False
+    n = lst.fields['length']
+    return ForAll([_k], Select(self_.fields['_dynamicNames'].fields['set'], _k) == And(_k >= 0, _k < n))
+
+
+DYN_INV0 = ForAll([_k], Select(DYN, _k) == And(_k >= 0, _k < If(IS_SCHEMA, 0, LLEN0)))
+RECORD_SETPOS_DYNAMIC = record_contract(
+    id='type.univ::SequenceAndSetBase.setComponentByPosition[undeclared,value-object]',
+    qual='SequenceAndSetBase.setComponentByPosition', properties=['C19'],
+    params=dict(componentType=PDerived(_named_types_model), self=PDerived(_record_self), idx=PInt(), value=PConst(NEW_VALUE),
+                verifyConstraints=PBool(), matchTags=PBool(), matchConstraints=PBool()),
+    globals=dict(GR, names_match_slots=FnV(_dyn_inv, 'names_match_slots'), namesMatchSlots0=DYN_INV0,
+                 L=If(IS_SCHEMA, 0, LLEN0)),
+    requires=['N == 0', 'namesMatchSlots0', 'idx >= 0'],
+    ensures=[('overwrite-or-append', 'idx <= L and slots_are(self._componentValues, L + 1 if idx == L else L, idx, value)'),
+             ('other-components-untouched', '(not schema) ==> others_kept_list(self._componentValues, idx)'),
+             ('every-slot-has-a-name', 'names_match_slots(self)')],
+    # a position beyond the end is refused and nothing changes
+    raise_ensures={'PyAsn1Error': ['idx > L', 'schema ==> self._componentValues is noValue',
+                                   '(not schema) ==> list_unchanged(self._componentValues)']},
+    may_raise={'PyAsn1Error': True})
+CONTRACTS = CONTRACTS + [RECORD_SETPOS_DYNAMIC]
+
+
+# ---- record reads: an existing component is handed out unchanged --------------------------------------------------------------
+def _record_self_with_set(ex, env):
+    o = _record_self(ex, env)
+
+    def set_pos(ex2, self, idx, value=NOVALUE, *a, **kw):
+        """callee contract setComponentByPosition[declared,placeholder] / [undeclared]: a placeholder is stored at the
+        position (one slot per declared component), or a library / lookup error and nothing changes"""
+        if ex2.choose(ex2.fresh('instantiate.refused', BoolSort()), 'placeholder-refused'):
+            raise _Raise(ExcV('PyAsn1Error'))
+        ph = Obj('Asn1Item', {'isValue': ex2.fresh('placeholder.isValue', BoolSort())}, bases=('Asn1Item',), name='placeholder')
+        cv = self.fields['_componentValues']
+        idx = toint(idx)
+        ex2.assume(And(idx >= -N_DECL, idx < N_DECL))         # otherwise the callee raises (its contract)
+        if cv is NOVALUE or ex2.choose(cv.fields['length'] == 0, 'cleared'):
+            cv = sym_list(N_DECL, z3.K(I, NOV))
+            self.fields['_componentValues'] = cv
+        cv.methods['__setitem__'](ex2, cv, idx, ph)
+        self.fields['instantiated'] = ph
+        return self
+    o.methods['setComponentByPosition'] = set_pos
+    o.fields['instantiated'] = None
+    return o
+
+
+RECORD_GETPOS = record_contract(
+    id='type.univ::SequenceAndSetBase.getComponentByPosition[declared]', qual='SequenceAndSetBase.getComponentByPosition',
+    properties=['C19', 'C12'],
+    params=dict(componentType=PConst(None), self=PDerived(_record_self_with_set), idx=PInt(),
+                default=POneOf(NOVALUE, DEFAULT), instantiate=PBool()),
+    globals=dict(GR, slot0=FnV(lambda ex, k: Select(LID0, If(toint(k) < 0, toint(k) + LLEN0, toint(k))), 'slot0'),
+                 isValueOf=FnV(lambda ex, i: IS_VALUE_OF(toint(i)), 'isValueOf'), theDefault=DEFAULT, NOV=NOV,
+                 in_slots=FnV(lambda ex, k: And(toint(k) >= -LLEN0, toint(k) < LLEN0), 'in_slots')),
+    requires=['N > 0', 'schema or LLEN0 == N or LLEN0 == 0'],
+    ensures=[
+        ('set-component-read-only', '(not schema and in_slots(idx) and slot0(idx) != NOV) ==> list_unchanged(self._componentValues)'),
+        # a component that is a value is always handed out; a valueless one (placeholder) only to a caller that asked for
+        # instantiation and gave no default
+        ('set-component-returned', '(not schema and in_slots(idx) and slot0(idx) != NOV and (isValueOf(slot0(idx)) or '
+                                   '(instantiate and default is noValue))) ==> idof(result) == slot0(idx)'),
+        ('default-instead-of-a-valueless-component', '(not schema and in_slots(idx) and slot0(idx) != NOV and '
+                                                     'not isValueOf(slot0(idx)) and not (instantiate and default is noValue)) '
+                                                     '==> result is default'),
+        ('unset-without-instantiate', '((schema or not in_slots(idx) or slot0(idx) == NOV) and not instantiate) ==> '
+                                      '(result is default and (self._componentValues is noValue if schema else '
+                                      'list_unchanged(self._componentValues)))'),
+        ('unset-with-instantiate', '((schema or not in_slots(idx) or slot0(idx) == NOV) and instantiate) ==> '
+                                   '(slots_are(self._componentValues, N, eff(idx, N), self.instantiated))')],
+    may_raise={'PyAsn1Error': True},
+    note='setComponentByPosition(idx) is the callee contract proved above')
+
+
+def _plain_record(ex, env):
+    o = _record_self(ex, env)
+    o.fields['DynamicNames'] = FnV(lambda ex2: Obj('DynamicNames', {'set': z3.K(I, False)}, name='DynamicNames()'), 'DynamicNames')
+    return o
+
+
+RECORD_CLEAR = record_contract(
+    id='type.univ::SequenceAndSetBase.clear', qual='SequenceAndSetBase.clear', properties=['C19'],
+    params=dict(componentType=PConst(None), self=PDerived(_plain_record)), globals=GR,
+    ensures=[('empty-value-object', 'self._componentValues is not noValue and len(self._componentValues) == 0'),
+             ('no-dynamic-names-left', 'names_empty(self)'), ('returns-self', 'result is self')])
+RECORD_RESET = record_contract(
+    id='type.univ::SequenceAndSetBase.reset', qual='SequenceAndSetBase.reset', properties=['C19'],
+    params=dict(componentType=PConst(None), self=PDerived(_plain_record)), globals=GR,
+    ensures=[('schema-object', 'self._componentValues is noValue'), ('no-dynamic-names-left', 'names_empty(self)'),
+             ('returns-self', 'result is self')])
+for _c in (RECORD_CLEAR, RECORD_RESET):
+    _c.globals = dict(_c.globals, names_empty=FnV(lambda ex, s: ForAll([_k], Not(Select(s.fields['_dynamicNames'].fields['set'], _k))),
+                                                  'names_empty'))
+CONTRACTS = CONTRACTS + [RECORD_GETPOS, RECORD_CLEAR, RECORD_RESET]
